@@ -328,17 +328,23 @@ CHECKS = {
              "verified (15.1 oracles + pinned digest + WPT vectors instead); the IDNA pipeline itself is compared, not "
              "modelled; four known findings (ZWNJ rule relaxed, Bidi rule per label, Bidi/Mark tables predate Unicode 14, 16384-byte input cap)."),
     "C16": dict(
-        technique="Lean 4 proof of the table-independent laws (Punycode output lower-case, ASCII branch idempotent and "
-                  "case-insensitive); equivalent-spelling laws decided on the implementation with spellings derived from "
+        technique="Lean 4 proof of the table-independent laws (Punycode round trip for every list of code points, Punycode "
+                  "output lower-case, ASCII branch idempotent and case-insensitive); equivalent-spelling laws decided on the implementation with spellings derived from "
                   "Unicode data",
-        text="Lean 4: Punycode digits are lower-case letters/digits (all 36), the ASCII branch of domain-to-ASCII is "
+        text="Lean 4: punycode_roundtrip - whatever punycode_to_utf32 answers on the output of utf32_to_punycode is the "
+             "original list of code points, for every list (the model transcribes bias adaptation, variable-length integers, "
+             "the insertion loop and every int32 guard and is run against the real functions; proof by a simulation "
+             "invariant between the encoder's scan and the decoder's insertion state, 750 lines); without its int32 guards "
+             "the decoder always gives the list back, and the guards only reject. Punycode digits are lower-case "
+             "letters/digits (all 36), the ASCII branch of domain-to-ASCII is "
              "idempotent, lower-case and case-insensitive for every byte string. On the implementation: for generated "
              "multi-script domains the NFD/NFC/case-flipped/ignorable-inserted/fullwidth spellings must convert identically "
              "(or all fail), results are lower-case ASCII and fixed points, ToASCII(ToUnicode(ToASCII x)) = ToASCII x, also "
              "through the host parser of both URL types.",
         design_ref="DESIGN.md §5 C16", category="proof",
         note="the equivalence laws depend on the Unicode tables and are decided per generated input (differential / "
-             "metamorphic), not proved; one known finding inherent to UTS46 (U+0345 is mapped to a starter before "
+             "metamorphic), not proved; the Punycode round trip is proved for the model (tied to the C++ by the L1 run of "
+             "encoder and decoder); one known finding inherent to UTS46 (U+0345 is mapped to a starter before "
              "normalization)."),
 }
 
